@@ -661,4 +661,73 @@ theorem sumL_voteCounts (k : Nat) (p : List Nat) (hlt : ∀ c ∈ p, c < k) :
     rw [this]; simp only [List.length_cons]; push_cast; ring
 
 end C11Helpers
+
+/-! ## argsort / cost-matrix permutation -/
+section
+variable {γ : Type} [LinearOrder γ]
+
+theorem searchsorted_lt_of_lt (cls : List γ) (x y : γ) (hx : x ∈ cls) (hxy : x < y) :
+    searchsorted cls x < searchsorted cls y := by
+  unfold searchsorted
+  rw [← List.countP_eq_length_filter, ← List.countP_eq_length_filter]
+  induction cls with
+  | nil => simp at hx
+  | cons c cs ih =>
+    simp only [List.countP_cons]
+    have hmono : List.countP (isLtB x) cs ≤ List.countP (isLtB y) cs := by
+      apply List.countP_mono_left
+      intro z _ hz
+      simp only [isLtB, decide_eq_true_eq] at hz ⊢
+      exact lt_trans hz hxy
+    rcases List.mem_cons.mp hx with rfl | hx'
+    · have h1 : isLtB x x = false := by simp [isLtB]
+      have h2 : isLtB y x = true := by simp [isLtB, hxy]
+      simp only [h1, h2, Bool.false_eq_true, if_false, if_true]
+      omega
+    · have := ih hx'
+      by_cases hc : isLtB x c = true
+      · have hc' : isLtB y c = true := by
+          simp only [isLtB, decide_eq_true_eq] at hc ⊢; exact lt_trans hc hxy
+        simp only [hc, hc', if_true]; omega
+      · have hc0 : (if isLtB x c = true then 1 else 0) = 0 := by simp [hc]
+        rw [hc0]
+        have h0 : 0 ≤ (if isLtB y c = true then 1 else 0) := Nat.zero_le _
+        omega
+
+theorem searchsorted_inj (cls : List γ) (x y : γ) (hx : x ∈ cls) (hy : y ∈ cls)
+    (h : searchsorted cls x = searchsorted cls y) : x = y := by
+  rcases lt_trichotomy x y with h1 | h1 | h1
+  · exact absurd h (ne_of_lt (searchsorted_lt_of_lt cls x y hx h1))
+  · exact h1
+  · exact absurd h.symm (ne_of_lt (searchsorted_lt_of_lt cls y x hy h1))
+
+/-- for distinct labels, the entry of `argsort` at the rank of label `i` is `i`. -/
+theorem argsortL_rank (cls : List γ) (hnd : cls.Nodup) (i : Nat) (hi : i < cls.length)
+    (hr : searchsorted cls cls[i] < cls.length) :
+    (argsortL cls).getD (searchsorted cls cls[i]) 0 = i := by
+  unfold argsortL
+  rw [List.getD_eq_getElem?_getD, List.getElem?_map, List.getElem?_range hr]
+  simp only [Option.map_some, Option.getD_some]
+  rw [List.findIdx_eq hi]
+  refine ⟨by simp [rankIs], ?_⟩
+  intro j hji
+  have hj : j < cls.length := by omega
+  by_contra hne
+  have : rankIs cls (searchsorted cls cls[i]) cls[j] = true := by simpa using hne
+  simp only [rankIs, beq_iff_eq] at this
+  have e := searchsorted_inj cls cls[j] cls[i] (List.getElem_mem hj) (List.getElem_mem hi) this
+  have := (List.Nodup.getElem_inj_iff hnd).mp e
+  omega
+
+theorem searchsorted_lt_length (cls : List γ) (x : γ) (hx : x ∈ cls) : searchsorted cls x < cls.length := by
+  unfold searchsorted
+  have h1 : (cls.filter (isLtB x)).length ≤ cls.length := List.length_filter_le _ _
+  rcases Nat.lt_or_ge (cls.filter (isLtB x)).length cls.length with h | h
+  · exact h
+  · exfalso
+    have he : (cls.filter (isLtB x)).length = cls.length := by omega
+    have := List.length_filter_eq_length_iff.mp he x hx
+    simp [isLtB] at this
+end
+
 end Ska.Classifier
